@@ -85,10 +85,64 @@ def enumerate_cases(tier):
         for u in REP_UNITS:
             for n in range(-4, 5):
                 out.append({"k": "unit", "p": p, "u": u, "n": n, "mag": {"t": ["int", "float", "dec"][(len(p) + n) % 3], "v": [7, 2.5, "1.25"][(len(p) + n) % 3]}})
+    out.append({"k": "leftovers"})
     # last: the identities once more around a long run of unrelated work (thousands of other
     # prefixes, a hundred and fifty thousand other units created in between)
     out.append({"k": "churn", "prefixes": 3000, "units": 150000})
     return out
+
+
+def _run_leftovers(case, out):
+    """units in which every base unit has cancelled but a prefix is left ((p*u)/u, p*One): they are
+    multiplied and divided by One, by themselves and by each other, and after each such operation
+    the identities on One hold: IdentityPrefix*One is One, p*One is p*One, (p*One)**n is p**n*One**n,
+    m*(p*One) has the value m*value(p), stripping the prefix does not change the value."""
+    c = convgen.ctx()
+    m = c.m
+    One = m.One
+    prefixes = [c.snap.prefixes[n] for n in PFX if n]
+    some = [c.units[u] for u in REP_UNITS[:4]]
+    n_checked = 0
+
+    def identities(after):
+        nonlocal n_checked
+        for p in prefixes:
+            n_checked += 1
+            pone = p * One
+            if m.IdentityPrefix * One is not One or dict(One.factors) != {One: 1}:
+                out.fail("C11:leftovers:one-damaged", f"after {after}: IdentityPrefix*One is not One, or One.factors = {dict(One.factors)!r}")
+                return False
+            if pone is not p * One or pone.prefix is not p or dict(pone.factors) != {One: 1}:
+                out.fail("C11:leftovers:prefixed-one", f"after {after}: {p!r} * One is {pone!r}")
+                return False
+            for k in (2, -1, 3):
+                if pone**k is not (p**k) * One**k:
+                    out.fail("C11:leftovers:power", f"after {after}: ({p!r}*One)**{k} is not {p!r}**{k} * One**{k}")
+                    return False
+            q = 7 * pone
+            v = q.unprefixed()
+            if v.unit is not One or abs(float(v.magnitude) - 7 * float(_pv(p))) > 1e-9 * abs(7 * float(_pv(p))):
+                out.fail("C11:leftovers:value", f"after {after}: 7 x ({p!r}*One) unprefixed is {v!r}")
+                return False
+        return True
+
+    if not identities("nothing"):
+        return
+    for p in prefixes:
+        for u in some:
+            left = (p * u) / u
+            for name, f in (("x/One", lambda: left / One), ("x*One", lambda: left * One), ("One*x", lambda: One * left), ("One/x", lambda: One / left),
+                            ("x/x", lambda: left / left), ("x*x", lambda: left * left), ("(p*One)/One", lambda: (p * One) / One), ("x**0", lambda: left**0)):
+                try:
+                    f()
+                except Exception as e:  # noqa
+                    out.fail(f"C11:leftovers:raises:{type(e).__name__}@{core.innermost_frame(e)}", f"{name} with x = ({p!r}*{u.name})/{u.name}: {type(e).__name__}: {e}")
+                    return
+                if not identities(f"{name} with x = ({p.name or p!r}*{u.name})/{u.name}"):
+                    return
+    out.classes.append("leftovers")
+    out.nontrivial = "leftovers"
+    out.sample = {"identities_checked": n_checked}
 
 
 def _run_churn(case, out):
@@ -182,6 +236,9 @@ def run_case(case) -> core.Outcome:
     snap = c.snap
     if isinstance(case, dict) and case.get("k") == "churn":
         _run_churn(case, out)
+        return out
+    if isinstance(case, dict) and case.get("k") == "leftovers":
+        _run_leftovers(case, out)
         return out
     try:
         kind = case["k"]
@@ -377,8 +434,14 @@ def run_case(case) -> core.Outcome:
                     elif not _close(sr, wantd):
                         fail("division", f"({num!r}) / [{tag}] {case['q']}*{B}: SI value {float(sr)!r}, expected {float(wantd)!r}", q, B.prefix, A.prefix)
         if case["p"] and (n not in (0, 1) or kind == "compound"):
-            out.nontrivial = f"{kind}|{case['p']}|{n}|{A}" + (f"|{case['q']}|{B}" if kind == "compound" else "")
-            out.sample = {"prefix": case["p"], "unit": str(A), "n": n, "magnitude": repr(mag)}
+            def _shown(u):
+                try:
+                    return str(u)
+                except Exception as e:  # noqa -- renderings are C13's subject; a label must not stop the run
+                    return f"<str() raised {type(e).__name__}>"
+            shown = _shown(A)
+            out.nontrivial = f"{kind}|{case['p']}|{n}|{shown}" + (f"|{case['q']}|{_shown(B)}" if kind == "compound" else "")
+            out.sample = {"prefix": case["p"], "unit": shown, "n": n, "magnitude": repr(mag)}
     except (OverflowError, ZeroDivisionError):
         out.inconclusive = "float-range"
     return out
